@@ -1,0 +1,26 @@
+//go:build verif
+
+// Contracts for package term (comment-only; checked by /verif/bin/rlverify).
+
+package term
+
+// C11: the terminal mode.  tmode() (declared in /verif/specs/stdlib.spec) is the ghost termios value the
+// kernel holds for the input terminal.  MakeRaw and Restore are the only functions of the module that
+// change it (two ioctls each through golang.org/x/sys/unix); they are trusted: the kernel state and the
+// interior pointer &state.termios are outside the heap model.  A *State is never modified once built,
+// which is what lets the saved mode survive everything the main loop does:
+//@ final term.State.termios props C11
+
+//@ func MakeRaw
+//@   props C11
+//@   trusted TCGETS then TCSETS through golang.org/x/sys/unix (A-OS): returns the settings read before the change; on failure nothing was changed (the first ioctl failed) or the error is reported
+//@   assigns anyghost(tmode)
+//@   ensures [returns-previous-mode] result1 == nil ==> result0 != nil && fresh(result0) && result0.termios == old(tmode())
+//@   ensures [failure-changes-nothing] result1 != nil ==> tmode() == old(tmode())
+
+//@ func Restore
+//@   props C11
+//@   trusted one TCSETS through golang.org/x/sys/unix (A-OS); the ioctl is assumed to succeed on the descriptor MakeRaw succeeded on (Readline ignores its error)
+//@   requires state != nil
+//@   assigns anyghost(tmode)
+//@   ensures [sets-the-given-mode] tmode() == state.termios
